@@ -248,9 +248,12 @@ def encMsgCore (m : Msg) : Bytes :=
      | .close => crlf ++ m.body
      | .none => crlf)
 
+/-- an interim response as the reference encoder writes it: "HTTP/1.1 <st> Interim", no header, no body -/
+def interimMsg (st : Nat) : Msg := { isRequest := false, status := st, reason := bytesOfString "Interim", minor := 1 }
+
 /-- the message on the wire: its interim responses (if any) in front of it -/
 def encMsg (m : Msg) : Bytes :=
-  (m.pre.map fun st => bytesOfString "HTTP/1.1 " ++ dec st ++ bytesOfString " Interim" ++ crlf ++ crlf).flatten ++ encMsgCore m
+  (m.pre.map fun st => encMsgCore (interimMsg st)).flatten ++ encMsgCore m
 
 theorem encMsg_nopre (m : Msg) (h : m.pre = []) : encMsg m = encMsgCore m := by
   simp [encMsg, h]
